@@ -264,6 +264,8 @@ func init() {
 		},
 	}
 
+	registerEventVocab()
+
 	models = map[string]Intrinsic{
 		// ---- sync / atomic: sequential semantics ----
 		"(*sync.Mutex).Lock":      lockModel(+1),
